@@ -8,7 +8,8 @@ Sections
   B. the factor implied by the parts (product, quotient, power, inverse power, SI prefix) and the
      offset-rejection rule
   C. `simplify_unit`: the invariant `factor = ∏ atom ^ power` along evaluation and soundness of
-     rendering the name and parsing it again (over ℚ), with the counterexamples of the current code
+     rendering the name and parsing it again (over ℚ), with kernel-checked witnesses on the inputs
+     that were wrong before the repairs of units.py
   D. the hypotheses hold for the whole shipped library (generated table) and stay true when
      `_find_unit` adds prefixed units
 -/
@@ -199,15 +200,36 @@ theorem C06_prefix_factor (u v : PUnit K) (p : K) (item : String) (h : prefixed 
       simp [toBase, ho]
       ring
 
-/-- `*`, `/`, `**` and multiplication / division by a number raise `TypeError` exactly when an
-offset is present. -/
+/-- number / unit (`__rdiv__`) -/
+theorem C06_rdiv_factor (a c : PUnit K) (x : K) (k : Atom K) (h : rdiv a x k = .ok c) :
+    a.offset = 0 ∧ a.factor ≠ 0 ∧ c.factor = x / a.factor ∧ c.offset = 0 ∧
+    c.powers = a.powers.map (fun p => -p) ∧
+    ∀ y z, toBase c (y / z) = y * x / toBase a z := by
+  unfold rdiv at h
+  split at h
+  · simp at h
+  · rename_i ho
+    simp only [not_not] at ho
+    split at h
+    · simp at h
+    · rename_i hf
+      simp at h
+      subst h
+      refine ⟨ho, hf, rfl, rfl, rfl, ?_⟩
+      intro y z
+      simp [toBase, ho]
+      ring
+
+/-- `*`, `/`, `**`, multiplication / division by a number and number / unit raise `TypeError`
+exactly when an offset is present. -/
 theorem C06_offset_arith_rejected (a b : PUnit K) (x : K) (k : Atom K) (n : Int) :
     (mul a b = .error .typeErr ↔ (a.offset ≠ 0 ∨ b.offset ≠ 0)) ∧
     (div a b = .error .typeErr ↔ (a.offset ≠ 0 ∨ b.offset ≠ 0)) ∧
     (powI a n = .error .typeErr ↔ a.offset ≠ 0) ∧
     (mulNum a x k = .error .typeErr ↔ a.offset ≠ 0) ∧
-    (divNum a x k = .error .typeErr ↔ a.offset ≠ 0) := by
-  refine ⟨?_, ?_, ?_, ?_, ?_⟩
+    (divNum a x k = .error .typeErr ↔ a.offset ≠ 0) ∧
+    (rdiv a x k = .error .typeErr ↔ a.offset ≠ 0) := by
+  refine ⟨?_, ?_, ?_, ?_, ?_, ?_⟩
   · unfold mul; split <;> simp_all
   · unfold div; split
     · simp_all
@@ -219,12 +241,9 @@ theorem C06_offset_arith_rejected (a b : PUnit K) (x : K) (k : Atom K) (n : Int)
   · unfold divNum; split
     · simp_all
     · split <;> simp_all
-
-/-- The code as it is: `__rdiv__` (number / unit) has no offset check; it accepts an offset unit
-and silently drops the offset (see `C06_simplify_offset_counterexample`). -/
-theorem C06_rdiv_accepts_offset (a : PUnit K) (x : K) (k : Atom K) (ha : a.factor ≠ 0) :
-    ∃ c, rdiv a x k = .ok c ∧ c.offset = 0 ∧ c.factor = x / a.factor := by
-  simp [rdiv, ha]
+  · unfold rdiv; split
+    · simp_all
+    · split <;> simp_all
 
 end Field
 
@@ -252,8 +271,9 @@ example : (match mul exFt exS with
       | .ok c => decide (c.factor = 1524 / 5)
       | _ => false) = true ∧
     mul exC exS = .error .typeErr ∧ powI exC 2 = .error .typeErr ∧
-    (match rdiv exC 1 (Atom.litI 1) with
-      | .ok c => decide (c.offset = 0)
+    rdiv exC 1 (Atom.litI 1) = .error .typeErr ∧
+    (match rdiv exFt 2 (Atom.litI 2) with
+      | .ok c => decide (c.factor = 2500 / 381 ∧ c.powers = [-1, 0])
       | _ => false) = true := by decide +kernel
 example : (match powInv (fun x r => if x = 16 ∧ r = 2 then some 4 else none) []
       (⟨16, 0, [2, 0], []⟩ : PUnit Rat) 2 with
@@ -265,33 +285,35 @@ end Examples
 
 /-- Along evaluation with integer powers only (`noRoot`: every inverse-integer power fails) and no
 zero literal, every unit satisfies `factor = ∏ atom ^ power`, `powers = Σ power • atomPowers`,
-all its atoms are table units / non-zero numbers, and `_names` holds Python ints only. -/
+all its atoms are table units / non-zero numbers, its factor is non-zero, and it is either an
+untouched table unit or has no offset and only offset-free unit names in `_names` (every operator,
+`__rdiv__` included, rejects offset operands). -/
 theorem C06_names_invariant (bn : List String) (t : Table) (n : Nat) (hT : TableOK t n)
     (e : Expr) (u : PUnit Rat) (hz : NoZeroLit e) (h : evalE noRoot bn t e = .ok (.unit u)) :
     u.factor = namesF t u.names ∧ u.powers.length = n ∧
     (∀ i, u.powers.getD i 0 = namesPAt t i u.names) ∧
-    (∀ kv ∈ u.names, AtomOK t n kv.1) ∧ IntNames u.names ∧ u.factor ≠ 0 := by
-  obtain ⟨hI, hN⟩ := eval_inv bn t n hT e (.unit u) hz h
-  exact ⟨hI.fac, hI.len, hI.pw, hI.atoms, hN, hI.factor_ne_zero⟩
+    (∀ kv ∈ u.names, AtomOK t n kv.1) ∧ u.factor ≠ 0 ∧
+    ((∃ a, u.names = [(Atom.sym a, Pw.one)] ∧ tlookup t a = some u) ∨
+     (u.offset = 0 ∧ OffFree t u.names)) := by
+  obtain ⟨hI, hS⟩ := eval_inv bn t n hT e (.unit u) hz h
+  exact ⟨hI.fac, hI.len, hI.pw, hI.atoms, hI.factor_ne_zero, hS⟩
 
-/-- Full-strength statement (false of the current code, see the counterexamples below):
-for every accepted expression the rendered name evaluates to the same factor, offset and dimension.
-Proved part, with the exact extra hypotheses.
-Soundness of `simplify_unit` = `name()` followed by parsing again: for a unit that satisfies
-the invariant, whose `_names` holds ints only, positive numbers only and offset-free unit names
-(or that is a bare table unit), evaluating the rendered name gives the same factor, offset and
-dimension. -/
-theorem C06_simplify_sound_partial (root : Rat → Int → Option Rat) (bn : List String) (t : Table) (n : Nat)
-    (u : PUnit Rat) (hI : Inv t n u)
-    (hE : (u.offset = 0 ∧ IntNames u.names ∧ LitsPos u.names ∧ OffFree t u.names) ∨
-          (∃ a, u.names = [(Atom.sym a, Pw.one)] ∧ tlookup t a = some u)) :
+/-- Soundness of `name()` followed by parsing again, for any unit that satisfies the invariant:
+evaluating the rendered name gives the same factor, offset and dimension, and the value is a unit
+(not a bare number) whenever a unit name is left in `_names` — the case in which `simplify_unit`
+returns the rendered name. -/
+theorem C06_name_sound (root : Rat → Int → Option Rat) (bn : List String) (t : Table) (n : Nat)
+    (u : PUnit Rat) (hI : Inv t n u) (hS : Shape t u) :
     ∃ v, evalE root bn t (nameExpr u.names) = .ok v ∧ valF v = u.factor ∧ valO v = u.offset ∧
-      (∀ i, valPAt i v = u.powers.getD i 0) ∧ (∀ w, v = .unit w → w.powers = u.powers) := by
-  rcases hE with ⟨ho, hint, hpos, hoff⟩ | ⟨a, hn, ha⟩
-  · have hent : ∀ kv ∈ u.names, EntryOK t n kv := fun kv hkv =>
-      ⟨hI.atoms kv hkv, hint kv hkv, hoff kv hkv, hpos kv hkv⟩
-    obtain ⟨v, hv, hg, hf, hp⟩ := nameExpr_eval root bn t n u.names hent
-    refine ⟨v, hv, by rw [hf, hI.fac], ?_, fun i => by rw [hp, hI.pw], ?_⟩
+      (∀ i, valPAt i v = u.powers.getD i 0) ∧ (∀ w, v = .unit w → w.powers = u.powers) ∧
+      (hasUnitName t u.names = true → ∃ w, v = .unit w) := by
+  rcases hS with ⟨a, hn, ha⟩ | ⟨ho, hoff⟩
+  · refine ⟨.unit u, ?_, rfl, rfl, fun _ => rfl, ?_, fun _ => ⟨u, rfl⟩⟩
+    · simp [hn, nameExpr, nameHead, numPieces, denPieces, pieceExpr, atomExpr, Pw.one, evalE, ha]
+    · intro w hw; cases hw; rfl
+  · have hent : ∀ kv ∈ u.names, EntryOK t n kv := fun kv hkv => ⟨hI.atoms kv hkv, hoff kv hkv⟩
+    obtain ⟨v, hv, hg, hf, hp, hu⟩ := nameExpr_eval root bn t n u.names hent
+    refine ⟨v, hv, by rw [hf, hI.fac], ?_, fun i => by rw [hp, hI.pw], ?_, ?_⟩
     · cases v with
       | num x => simp [valO, ho]
       | unit w => simp [valO, ho, hg.1]
@@ -299,93 +321,99 @@ theorem C06_simplify_sound_partial (root : Rat → Int → Option Rat) (bn : Lis
       subst hw
       exact list_eq_of_getD _ _ (hg.2.1.trans hI.len.symm) (fun i => by
         have := hp i; simp only [valPAt] at this; rw [this, hI.pw])
-  · refine ⟨.unit u, ?_, rfl, rfl, fun _ => rfl, ?_⟩
-    · simp [hn, nameExpr, nameHead, numPieces, denPieces, pieceExpr, atomAbs, atomNeg, atomExpr,
-        Pw.one, evalE, ha]
-    · intro w hw; cases hw; rfl
+    · intro hh
+      rw [hasUnitName_split t n u.names hI.atoms, ← hu] at hh
+      cases v with
+      | num x => simp [Val.isUnit] at hh
+      | unit w => exact ⟨w, rfl⟩
 
-/-- End to end for expressions with integer powers: evaluate, render the name, evaluate again. -/
-theorem C06_simplify_roundtrip_partial (root : Rat → Int → Option Rat) (bn : List String) (t : Table)
+/-- `simplify_unit` is sound (full strength for expressions with integer powers): evaluate an
+accepted expression, render the name of the result, evaluate the rendered name again — same
+factor, offset and dimension, and a unit again whenever the rendered name is what `simplify_unit`
+returns (`hasUnitName`; otherwise it returns its argument, or `None` for `'1'`).
+The only hypotheses left are the well-formed table and "no zero literal" (non-zero factors);
+`IntNames` / `LitsPos` / `OffFree` of the former `_partial` statement are now consequences. -/
+theorem C06_simplify_sound (root : Rat → Int → Option Rat) (bn : List String) (t : Table)
     (n : Nat) (hT : TableOK t n) (e : Expr) (u : PUnit Rat) (hz : NoZeroLit e)
-    (h : evalE noRoot bn t e = .ok (.unit u)) (ho : u.offset = 0) (hpos : LitsPos u.names)
-    (hoff : OffFree t u.names) :
+    (h : evalE noRoot bn t e = .ok (.unit u)) :
     ∃ v, evalE root bn t (nameExpr u.names) = .ok v ∧ valF v = u.factor ∧ valO v = u.offset ∧
-      (∀ w, v = .unit w → w.powers = u.powers) := by
-  obtain ⟨hI, hN⟩ := eval_inv bn t n hT e (.unit u) hz h
-  obtain ⟨v, h1, h2, h3, _, h5⟩ := C06_simplify_sound_partial root bn t n u hI (Or.inl ⟨ho, hN, hpos, hoff⟩)
-  exact ⟨v, h1, h2, h3, h5⟩
+      (∀ i, valPAt i v = u.powers.getD i 0) ∧ (∀ w, v = .unit w → w.powers = u.powers) ∧
+      (hasUnitName t u.names = true → ∃ w, v = .unit w) := by
+  obtain ⟨hI, hS⟩ := eval_inv bn t n hT e (.unit u) hz h
+  exact C06_name_sound root bn t n u hI hS
 
-/-! ### the current code outside these hypotheses (generated table, `decide +kernel`) -/
+/-! ### the inputs that were wrong before the repairs (generated table, `decide +kernel`),
+through the whole modelled API: lexer, parser, `_find_unit` with its prefix scan, `name()` -/
 
-/-- a root oracle that knows `1 ** (1/r) = 1` -/
-def rootOfOne : Rat → Int → Option Rat := fun x _ => if x = 1 then some 1 else none
+/-- `(m**4)**0.5` is simplified to `m**2` (was `m**2.0`, which does not parse back), and that
+string denotes the same unit. -/
+theorem C06_simplify_inverse_power_witness :
+    simpIs (apiSimplify rootOfOne Gen.lib "(m**4)**0.5")
+      (.toks [Tok.ident "m", Tok.dstar, Tok.int 2]) = true ∧
+    findIs (findUnit rootOfOne Gen.lib "(m**4)**0.5") 1 0 [2, 0, 0, 0, 0, 0, 0, 0, 0, 0, 0, 0, 0] = true ∧
+    findIs (findUnit rootOfOne Gen.lib "m**2") 1 0 [2, 0, 0, 0, 0, 0, 0, 0, 0, 0, 0, 0, 0] = true := by
+  decide +kernel
 
-/-- `(m**4)**0.5` is accepted, its name renders as `m**2.0` (float exponent stored by the
-inverse-integer branch of `__pow__`), and that expression is rejected with `TypeError`:
-`IntNames` is needed in `C06_simplify_sound_partial`. -/
-theorem C06_simplify_float_power_counterexample :
-    (match evalE rootOfOne Gen.baseNames Gen.unitTable
-        (Expr.pow (Expr.pow (Expr.ident "m") (Expr.int 4)) (Expr.flt (1 / 2))) with
-      | .ok (.unit u) =>
-        decide (nameToks u.names = [Tok.ident "m", Tok.dstar, Tok.flt 2]) &&
-        decide (parseToks (nameToks u.names) = some (nameExpr u.names)) &&
-        (match evalE rootOfOne Gen.baseNames Gen.unitTable (nameExpr u.names) with
-          | .error .typeErr => true
-          | _ => false)
-      | _ => false) = true := by decide +kernel
+/-- `1/degC*m` is rejected with `TypeError` by every entry point (was accepted, and its
+simplified form `1*m/degC` rejected). -/
+theorem C06_offset_rdiv_witness :
+    simpErrIs (apiSimplify noRoot Gen.lib "1/degC*m") .typeErr = true ∧
+    simpErrIs (apiSimplify noRoot Gen.lib "1/degF") .typeErr = true := by
+  decide +kernel
 
-/-- `1/degC*m` is accepted (`__rdiv__` has no offset check), renders as `1*m/degC`, which is
-rejected (`__div__` checks the offset): `OffFree` is needed. -/
-theorem C06_simplify_offset_counterexample :
-    (match evalE noRoot Gen.baseNames Gen.unitTable
-        (Expr.mul (Expr.div (Expr.int 1) (Expr.ident "degC")) (Expr.ident "m")) with
-      | .ok (.unit u) =>
-        decide (nameToks u.names = [Tok.int 1, Tok.star, Tok.ident "m", Tok.slash, Tok.ident "degC"]) &&
-        decide (parseToks (nameToks u.names) = some (nameExpr u.names)) &&
-        (match evalE noRoot Gen.baseNames Gen.unitTable (nameExpr u.names) with
-          | .error .typeErr => true
-          | _ => false)
-      | _ => false) = true := by decide +kernel
+/-- `(-2*m)**2` has factor 4 and is simplified to `m**2*(-2)**2`, which has factor 4 again
+(was `m**2*-2**2`, factor -4). -/
+theorem C06_simplify_negative_number_witness :
+    simpIs (apiSimplify noRoot Gen.lib "(-2*m)**2")
+      (.toks [Tok.ident "m", Tok.dstar, Tok.int 2, Tok.star, Tok.lpar, Tok.minus, Tok.int 2,
+              Tok.rpar, Tok.dstar, Tok.int 2]) = true ∧
+    findIs (findUnit noRoot Gen.lib "(-2*m)**2") 4 0 [2, 0, 0, 0, 0, 0, 0, 0, 0, 0, 0, 0, 0] = true ∧
+    findIs (findUnit noRoot Gen.lib "m**2*(-2)**2") 4 0 [2, 0, 0, 0, 0, 0, 0, 0, 0, 0, 0, 0, 0] = true := by
+  decide +kernel
 
-/-- `(-2*m)**2` has factor 4, renders as `m**2*-2**2`, which Python reads as `m**2*(-(2**2))`,
-factor -4: `LitsPos` is needed. -/
-theorem C06_simplify_negative_number_counterexample :
-    (match evalE noRoot Gen.baseNames Gen.unitTable
-        (Expr.pow (Expr.mul (Expr.neg (Expr.int 2)) (Expr.ident "m")) (Expr.int 2)) with
-      | .ok (.unit u) =>
-        decide (u.factor = 4) &&
-        decide (parseToks (nameToks u.names) = some (nameExpr u.names)) &&
-        (match evalE noRoot Gen.baseNames Gen.unitTable (nameExpr u.names) with
-          | .ok (.unit w) => decide (w.factor = -4)
-          | _ => false)
-      | _ => false) = true := by decide +kernel
+/-- `m/m*2` is returned as it is (was `'2'`, which is not a unit string); `ft*s/s` is still
+simplified to `ft`, and `m/m` to `None`. -/
+theorem C06_simplify_number_only_witness :
+    simpIs (apiSimplify noRoot Gen.lib "m/m*2") .same = true ∧
+    simpIs (apiSimplify noRoot Gen.lib "ft*s/s") (.toks [Tok.ident "ft"]) = true ∧
+    simpIs (apiSimplify noRoot Gen.lib "m/m") .unity = true := by
+  decide +kernel
 
-/-- `m/m*2` is a unit with factor 2 whose name renders as `2`: the value is preserved
-(`C06_simplify_sound_partial`), but the rendered expression is a number, which `_find_unit` does not
-accept as a unit. -/
-theorem C06_simplify_may_render_a_number :
-    (match evalE noRoot Gen.baseNames Gen.unitTable
-        (Expr.mul (Expr.div (Expr.ident "m") (Expr.ident "m")) (Expr.int 2)) with
-      | .ok (.unit u) =>
-        decide (u.factor = 2) && decide (nameToks u.names = [Tok.int 2]) &&
-        (match evalE noRoot Gen.baseNames Gen.unitTable (nameExpr u.names) with
-          | .ok (.num x) => decide (x.toRat = 2)
-          | _ => false)
-      | _ => false) = true := by decide +kernel
+/-- From the pristine library, `km*1e3` and `km*arc_minute` are accepted by the first call (the
+prefix scan no longer takes `e3`, `arc`, `minute` for unit names); an unknown name still gives
+`None`. -/
+theorem C06_prefix_scan_witness :
+    scanItems "km*1e3".toList = ["km".toList] ∧
+    scanItems "1.5e-3*kW/arc_minute".toList = ["kW".toList, "arc_minute".toList] ∧
+    findIs (findUnit noRoot Gen.lib "km*1e3") 1000000 0 [1, 0, 0, 0, 0, 0, 0, 0, 0, 0, 0, 0, 0] = true ∧
+    (match (findUnit noRoot Gen.lib "km*arc_minute").1 with
+      | .ok u => decide (u.powers = [1, 0, 0, 0, 0, 0, 0, 1, 0, 0, 0, 0, 0])
+      | .error _ => false) = true ∧
+    (match (findUnit noRoot Gen.lib "km*foo").1 with
+      | .error .invalid => true
+      | _ => false) = true := by
+  decide +kernel
 
--- non-vacuity of C06_names_invariant / C06_simplify_sound_partial / C06_simplify_roundtrip_partial on
--- the shipped table: `ft*s**2/(3*lbf)` evaluates, has no zero literal, its `_names` holds offset
--- free units and positive numbers only, the link `parse ∘ name` is the name expression, and
--- evaluating the rendered name returns the same factor, dimension and offset
+-- non-vacuity of C06_names_invariant / C06_name_sound / C06_simplify_sound on the shipped table:
+-- `ft*s**2/(-3*lbf)` evaluates, has no zero literal, the link `parse ∘ name` is the name
+-- expression, and evaluating the rendered name returns the same factor, dimension and offset;
+-- a bare offset unit (`degC`) renders as itself
 example :
     (match evalE noRoot Gen.baseNames Gen.unitTable
         (Expr.div (Expr.mul (Expr.ident "ft") (Expr.pow (Expr.ident "s") (Expr.int 2)))
-          (Expr.mul (Expr.int 3) (Expr.ident "lbf"))) with
+          (Expr.mul (Expr.neg (Expr.int 3)) (Expr.ident "lbf"))) with
       | .ok (.unit u) =>
-        decide (u.offset = 0) && litsPosB u.names && offFreeB Gen.unitTable u.names &&
+        decide (u.offset = 0) && offFreeB Gen.unitTable u.names && hasUnitName Gen.unitTable u.names &&
         decide (parseToks (nameToks u.names) = some (nameExpr u.names)) &&
         (match evalE noRoot Gen.baseNames Gen.unitTable (nameExpr u.names) with
           | .ok (.unit w) => decide (w.factor = u.factor ∧ w.powers = u.powers ∧ w.offset = 0)
+          | _ => false)
+      | _ => false) = true ∧
+    (match evalE noRoot Gen.baseNames Gen.unitTable (Expr.ident "degC") with
+      | .ok (.unit u) =>
+        decide (u.offset ≠ 0) &&
+        (match evalE noRoot Gen.baseNames Gen.unitTable (nameExpr u.names) with
+          | .ok (.unit w) => decide (w = u)
           | _ => false)
       | _ => false) = true := by decide +kernel
 
